@@ -443,6 +443,10 @@ def mesh_init_table(tree):
             continue
         if isinstance(st, ast.Assign) and _is_attr(st.targets[0], "self", "vertices"):
             continue
+        if isinstance(st, ast.If) and isinstance(st.test, ast.Compare) and isinstance(st.test.ops[0], ast.Lt) \
+                and isinstance(st.test.comparators[0], ast.Name) and st.test.comparators[0].id == dimv and len(st.test.ops) == 1:
+            # `k < dim` (the normalised spelling of `dim > k`)
+            st = ast.If(ast.Compare(st.test.comparators[0], [ast.Gt()], [st.test.left]), st.body, st.orelse)
         if isinstance(st, ast.If) and isinstance(st.test, ast.Compare) and isinstance(st.test.ops[0], ast.Gt) \
                 and isinstance(st.test.left, ast.Name) and st.test.left.id == dimv:
             names = []
@@ -470,10 +474,18 @@ def translate_structure():
         rec = T.site(name, fn)
         sites.append(rec)
         return rec["ok"]
-    md, _ = T.load("mouette/mesh/mesh_data.py")
-    dc, _ = T.load("mouette/mesh/data_container.py")
-    mm, _ = T.load("mouette/mesh/mesh.py")
-    bs, _ = T.load("mouette/mesh/datatypes/base.py")
+    # harmless respellings (`not a in b`, `a > b`, `x = x + 1`, `self.id_edges`, `len(X) == 0`) are normalised away first,
+    # with the same normaliser as the translated bodies (vlib/gen/c02_translate.py)
+    from ..gen.c02_translate import Norm
+
+    def _load(rel):
+        tree = Norm().visit(T.load(rel)[0])
+        ast.fix_missing_locations(tree)
+        return tree
+    md = _load("mouette/mesh/mesh_data.py")
+    dc = _load("mouette/mesh/data_container.py")
+    mm = _load("mouette/mesh/mesh.py")
+    bs = _load("mouette/mesh/datatypes/base.py")
 
     def s_prepare():
         g, steps = prepare_program(md); out["prepare"] = (g, steps)
